@@ -8,14 +8,14 @@ var codecAssume = []string{
 }
 
 var props = map[string]propCfg{
-	"C01": {engine: "codec", level: "exploration", qShards: 8, tShards: 16, assume: codecAssume},
-	"C02": {engine: "codec", level: "exploration", qShards: 8, tShards: 16, assume: codecAssume},
-	"C03": {engine: "codec", level: "exploration", qShards: 8, tShards: 16, assume: codecAssume},
-	"C07": {engine: "codec", level: "exploration", qShards: 8, tShards: 16, assume: codecAssume},
-	"C08": {engine: "codec", level: "exploration", qShards: 8, tShards: 16, assume: codecAssume},
-	"C09": {engine: "codec", level: "exploration", qShards: 8, tShards: 16, assume: codecAssume},
-	"C18": {engine: "codec", level: "exploration", qShards: 8, tShards: 16, assume: codecAssume},
-	"C20": {engine: "codec", level: "exploration", qShards: 8, tShards: 16, assume: codecAssume},
+	"C01": {engine: "codec", gen: true, level: "exploration", qShards: 8, tShards: 16, assume: codecAssume},
+	"C02": {engine: "codec", gen: true, level: "exploration", qShards: 8, tShards: 16, assume: codecAssume},
+	"C03": {engine: "codec", gen: true, level: "exploration", qShards: 8, tShards: 16, assume: codecAssume},
+	"C07": {engine: "codec", gen: true, level: "exploration", qShards: 8, tShards: 16, assume: codecAssume},
+	"C08": {engine: "codec", gen: true, level: "exploration", qShards: 8, tShards: 16, assume: codecAssume},
+	"C09": {engine: "codec", gen: true, level: "exploration", qShards: 8, tShards: 16, assume: codecAssume},
+	"C18": {engine: "codec", gen: true, level: "exploration", qShards: 8, tShards: 16, assume: codecAssume},
+	"C20": {engine: "codec", gen: true, level: "exploration", qShards: 8, tShards: 16, assume: codecAssume},
 }
 
 var _ = time.Second
